@@ -304,7 +304,11 @@ func checkC15inner(c CaseC15, info *Info) *Failure {
 		info.ClassIf(c.Option != "", "non-default decoder option")
 		acc, why := refAcceptsXML(b)
 		m, err := mxj.NewMapXml(b, strings.HasPrefix(c.Option, "cast"))
-		if acc != (err == nil) {
+		if c.Option == "xmpp" && bytes.Contains(bytes.ToLower(b), []byte("stream")) {
+			// HandleXMPPStreamTag: the <stream> start tag of an XMPP session is returned as a document of its own - it is
+			// never closed while the session lasts. Accept/reject is not compared for such input (totality still is).
+			info.Unspecified("XMPP stream start tag under HandleXMPPStreamTag (documented early return)")
+		} else if acc != (err == nil) {
 			return failf("accept-reject-mismatch", "NewMapXml(%q) option %q: the standard tokenizer accepts=%v (%s), mxj error=%v", b, c.Option, acc, why, err)
 		}
 		if err != nil && m != nil {
